@@ -95,6 +95,7 @@ class StartupRun:
         from asphalt.core import add_resource, add_resource_factory, add_teardown_callback, get_resource
 
         self.log("prepBegin" if which == "prep" else "startBegin", i)
+        self.probe_context(i)
         cancelled = anyio.get_cancelled_exc_class()
         try:
             for a in acts:
@@ -121,6 +122,7 @@ class StartupRun:
                 elif k == "regTd":
                     add_teardown_callback(lambda id_=a["id"]: self.log("tdRun", id_))
                     self.log("regTd", i, a["id"])
+                    await self.probe_nested(i)      # entering/leaving a context here has no checkpoint
                 elif k == "fail":
                     self.log("failed", i, a["e"])
                     raise EXN[a["e"]]()
@@ -128,6 +130,27 @@ class StartupRun:
             self.log("cancelSeen", i)
             raise
         self.log("prepEnd" if which == "prep" else "startEnd", i)
+
+    def probe_context(self, i: int) -> None:
+        """C12 inside a component: the current context is the component's own; a context created here
+        takes the context start_component() was called in as its parent. (Checked without a checkpoint.)"""
+        from asphalt.core import Context, current_context
+
+        cc = current_context()
+        inner = Context()
+        ok = inner.parent is self.surrounding and cc is not self.surrounding
+        if not ok:
+            self.trace.append({"l": ["probeFailed", i], "t": round(anyio.current_time() / TICK, 6)})
+
+    async def probe_nested(self, i: int) -> None:
+        from asphalt.core import Context, current_context
+
+        cc = current_context()
+        async with Context() as inner:
+            ok = current_context() is inner and inner.parent is self.surrounding
+        ok = ok and current_context() is cc
+        if not ok:
+            self.trace.append({"l": ["probeFailed", i], "t": round(anyio.current_time() / TICK, 6)})
 
     async def main(self) -> dict[str, Any]:
         import logging
@@ -143,6 +166,7 @@ class StartupRun:
         extra: dict[str, Any] = {}
         try:
             async with Context() as ctx:
+                self.surrounding = ctx
                 try:
                     # safety net of the harness: if everything is blocked for ever the virtual clock
                     # jumps here instead of the process hanging
